@@ -648,6 +648,37 @@ func (h *c17Hist) run() error {
 			return err
 		}
 	}
+	// directed (every third history): a pay-once file outlives what was paid for (nothing removes a file at that height;
+	// it lives as long as somebody proves it): a provider joins before, the chain passes the height, another provider
+	// joins after, reward blocks follow over several windows.  Both listings keep showing the same file, and whoever
+	// stops proving stops being paid, as at any other height
+	if h.hid%3 == 1 && len(h.datas) > 0 && len(h.provers) > 1 {
+		d := h.datas[len(h.datas)-1]
+		exp := h.e.Height + 14400*2
+		if err := h.postWith(d, h.owners[0], d.Size, 3, exp, "{}"); err != nil {
+			return err
+		}
+		if len(h.files) > 0 && h.files[len(h.files)-1].Start == h.e.Height {
+			pf := h.files[len(h.files)-1]
+			h.forceFile, h.forceKind, h.forceProver = pf, "honest", h.provers[0]
+			if err := h.opProof(); err != nil {
+				return err
+			}
+			h.nextHeight(exp - h.e.Height + 3)
+			h.forceProver = h.provers[1]
+			if err := h.opProof(); err != nil {
+				return err
+			}
+			h.forceFile, h.forceProver, h.forceKind = nil, nil, ""
+			for k := 0; k < 4; k++ {
+				h.nextHeight(h.params.ProofWindow)
+				if err := h.opReward(true); err != nil {
+					return err
+				}
+			}
+			h.r.Hist("directed", "pay-once file past its paid-for height")
+		}
+	}
 	for i := 0; i < steps; i++ {
 		// directed (every fourth history): a hundred days later — the owners' storage plans have run out — the owner
 		// deletes its files; files, listings and proof records must go together as at any other time
